@@ -347,9 +347,16 @@ def diff_events(a, b, path="event"):
 
 
 # ---- the three real codecs -----------------------------------------------------------------
+class EncodeFailed(Exception):
+    pass
+
+
 def real_json_roundtrip(ev):
-    text = SER.serialize(ev)
-    wire = json.loads(text)
+    try:
+        text = SER.serialize(ev)
+        wire = json.loads(text)
+    except Exception as e:      # noqa: BLE001
+        return None, EncodeFailed("%s: %s" % (type(e).__name__, e))
     try:
         back = SER.deserialize(text)
     except Exception as e:      # noqa: BLE001 - any escape is an observation
@@ -358,9 +365,12 @@ def real_json_roundtrip(ev):
 
 
 def real_env_roundtrip(ev, registry, with_qname=True):
-    env = EventEnvelopeWithMetadata.from_event(ev, include_qualified_name=with_qname)
-    text = env.model_dump_json()
-    wire = json.loads(text)
+    try:
+        env = EventEnvelopeWithMetadata.from_event(ev, include_qualified_name=with_qname)
+        text = env.model_dump_json()
+        wire = json.loads(text)
+    except Exception as e:      # noqa: BLE001
+        return None, EncodeFailed("%s: %s" % (type(e).__name__, e))
     try:
         back = EventEnvelopeWithMetadata.model_validate_json(text).load_event(list(registry))
     except Exception as e:      # noqa: BLE001
@@ -369,8 +379,11 @@ def real_env_roundtrip(ev, registry, with_qname=True):
 
 
 def real_tick_roundtrip(tick):
-    data = TK.WorkflowTickAdapter.dump_python(tick, mode="json")
-    wire = json.loads(json.dumps(data))
+    try:
+        data = TK.WorkflowTickAdapter.dump_python(tick, mode="json")
+        wire = json.loads(json.dumps(data))
+    except Exception as e:      # noqa: BLE001
+        return None, EncodeFailed("%s: %s" % (type(e).__name__, e))
     try:
         back = TK.WorkflowTickAdapter.validate_python(wire)
     except Exception as e:      # noqa: BLE001
